@@ -1953,7 +1953,10 @@ func genC20(c *Ctx) {
 		for kind := 0; kind < 4; kind++ {
 			mod := append([]string(nil), lines...)
 			ri := 1 + c.rng.Intn(len(t.rows))
-			toks := strings.Fields(mod[ri])
+			var toks []string // split exactly as the reader does (RE2 \s: VT is not a space)
+			for _, t := range splitSpace([]byte(mod[ri])) {
+				toks = append(toks, string(t))
+			}
 			switch kind {
 			case 0:
 				toks = append(toks, "1")
